@@ -423,7 +423,7 @@ pub fn run(ctx: &Ctx) -> PropResult {
     let mut all: Vec<&'static IfaceDesc> = vec![mini, pzoo];
     all.extend(ctx.random_ifaces().into_iter().filter(|i| i.decls.iter().any(|d| d.params.iter().any(|t| matches!(t, Ty::Str | Ty::Blk)))));
     let rand_shards = 48usize;
-    let rand_cases = ctx.scaled(if ctx.thorough { 30_000 } else { 1_500 });
+    let rand_cases = ctx.scaled(if ctx.thorough { 100_000 } else { 8_000 });
     let t_shards = 16usize;
     let per = targeted.len().div_ceil(t_shards);
     let accs = par::run_shards(
